@@ -873,3 +873,25 @@ def dispatch_tables(fn: ast.AST) -> list[tuple[str, dict[str, list[ast.stmt]], l
                     in_chain.update(members)
                     out.append((subj_text(a0[0]), table, default, st))
     return out
+
+
+def canon_cmp(e) -> str:
+    """Text of an expression with every single comparison written with `<` / `<=` (`a > b` -> `b < a`, `a >= b` ->
+    `b <= a`): for matching facts whatever way round they were spelled.  (Matching aid only: the operands of the
+    comparisons the rules look at are names, attribute chains and constants.)"""
+    import copy
+
+    if isinstance(e, str):
+        try:
+            e = ast.parse(e, mode="eval").body
+        except SyntaxError:
+            return e
+
+    class T(ast.NodeTransformer):
+        def visit_Compare(self, node: ast.Compare):
+            self.generic_visit(node)
+            if len(node.ops) == 1 and isinstance(node.ops[0], (ast.Gt, ast.GtE)):
+                return ast.copy_location(ast.Compare(left=node.comparators[0], ops=[ast.Lt() if isinstance(node.ops[0], ast.Gt) else ast.LtE()], comparators=[node.left]), node)
+            return node
+
+    return ast.unparse(ast.fix_missing_locations(T().visit(copy.deepcopy(e))))
